@@ -16,15 +16,14 @@ class SetModel(object):
 
     def add(self, name, octave=None):
         if octave is None:
-            # bare names are voiced upward: octave number of the current top note, one higher if
-            # that would put the new note below it; octave 4 when empty
+            # bare names are voiced upward: the octave that puts the name at or above the current top
+            # note and less than an octave (0..11 semitones) above it; octave 4 when empty
             if not self.m:
                 octave = 4
             else:
                 top = self.m[-1]
                 octave = top[2]
-                if pitch(name, octave) < top[0]:
-                    octave += 1
+                octave -= (pitch(name, octave) - top[0]) // 12
         p = pitch(name, octave)
         if all(x[0] != p for x in self.m):
             self.m.append((p, name, octave))
